@@ -7,7 +7,7 @@ from sedvc.values import Opaque, ObjRef, Quantity
 from .fit_info import make_fitinfo, FITINFO, META
 from .source import make_source, source_arrays, SOURCE
 from .models import make_models, MODELS
-from .fitinfo_file import FIF
+from .fitinfo_file import writer_state_cases, FIF
 
 FITTER = 'sedfitter.fit.Fitter'
 FIT = 'sedfitter.fit.fit'
@@ -138,7 +138,7 @@ class FitMain(Contract):
     name = FIT
     properties = ('C10',)
     variants = ('convolved', 'plain')
-    loops = {2: EventLoop('sources', _fit_check)}
+    loops = {2: EventLoop('sources', _fit_check, havoc=writer_state_cases('fout'))}
     # the numeric domain of the fitter / selector (positive fluxes, non-singular regression, n_data >= 1 ...) is a
     # condition on the data lines, not on the orchestration verified here
     assume_pre_of = (FITTER + '.fit', FITINFO + '.keep')
